@@ -22,7 +22,8 @@ TOOL = 3
 
 
 class OnePreemption:
-    def __init__(self, k, n_others, hold_timeout=1.0):
+    def __init__(self, k, n_others, hold_timeout=1.0, hold="quiescent"):
+        self.hold = hold  # "others": until the other predecessors' workers finished their bookkeeping; "quiescent": until nothing else can move
         self.k = k  # position to hold TA at (None = just count)
         self.n_others = n_others
         self.hold_timeout = hold_timeout
@@ -80,6 +81,8 @@ class OnePreemption:
                 # here" has happened - including a child of TA running to completion - or the others are blocked on a lock TA owns.
                 while _t.monotonic() < end:
                     self.cv.wait(0.002)
+                    if self.hold == "others" and self.others_done >= self.n_others:
+                        break
                     vec = []
                     ok = True
                     try:
@@ -197,7 +200,7 @@ def build_ir(shape):
     return ir, [p.id for p in P], slow
 
 
-def run_once(shape, a_index, k, W_extra, sched, seed):
+def run_once(shape, a_index, k, W_extra, sched, seed, hold="quiescent"):
     """One run with TA = the worker that runs P[a_index], held at position k (None: count only). Returns (R, OP, ir, P)."""
     import time
 
@@ -205,7 +208,7 @@ def run_once(shape, a_index, k, W_extra, sched, seed):
 
     ir, P, slow = build_ir(shape)
     a = P[a_index]
-    OP = OnePreemption(k, len(P) - 1)
+    OP = OnePreemption(k, len(P) - 1, hold=hold)
     holder = {}
 
     def pre(nid, att):
@@ -269,9 +272,12 @@ def enumerate_case(desc, oracle):
     points = set()
     witness = None
     if bad is None:
-        for k in range(1, N + 1):
-            R, OP, ir, P = run_once(desc["shape"], desc["a_index"], k, desc["W_extra"], desc["sched"], desc["seed"] + k)
+        for k, hold in [(k, h) for k in range(1, N + 1) for h in ("others", "quiescent")]:
+            # two lengths of the preemption at every k: TA resumes as soon as the other predecessors' workers are done with their
+            # bookkeeping (their successors may still be running), or only when nothing else in the process can move any more
+            R, OP, ir, P = run_once(desc["shape"], desc["a_index"], k, desc["W_extra"], desc["sched"], desc["seed"] + k, hold=hold)
             counters["preempt_positions_enumerated"] += 1
+            counters[f"preempt_holds_{hold}"] = counters.get(f"preempt_holds_{hold}", 0) + 1
             if OP.held_at is None:
                 counters["preempt_position_never_reached"] += 1
             else:
@@ -282,8 +288,9 @@ def enumerate_case(desc, oracle):
                     counters["preempt_holds_others_completed"] += 1
             bad = oracle(R, ir)
             if bad:
-                bad = (f"[worker of n{P[desc['a_index']]} held at its instruction #{k} of {N} after the call ended ({OP.held_at}), the other predecessor(s) "
-                       f"ran their bookkeeping meanwhile; shape {desc['shape']}, {desc['sched']}, W={desc['W']}] {bad}")
+                bad = (f"[worker of n{P[desc['a_index']]} held at its instruction #{k} of {N} after the call ended ({OP.held_at}) until "
+                       f"{'the other predecessors had finished their bookkeeping' if hold == 'others' else 'the rest of the process was quiescent'}; "
+                       f"shape {desc['shape']}, {desc['sched']}, W={desc['W']}] {bad}")
                 witness = {"plan": ir.describe(40), "history": R.H.compact_history(200), "k": k, "held_at": OP.held_at, "positions": OP.positions[:200]}
                 break
     res = {"status": "ok", "counters": counters, "sets": {"preempt_points_held": sorted(points)}, "nontrivial": counters["preempt_holds_others_completed"] > 0,
